@@ -116,6 +116,11 @@ pub struct World {
     pub coin_seq: u32,
     /// a transaction spending coins was just stored: mine it at the next chain operation
     pub mine_pending_soon: bool,
+    /// a wallet shielding transaction was just mined and scanned: the next proposals are send-max
+    /// requests of that account under an asymmetric policy, one or two blocks apart (account, remaining, mined height of the newest shielded coin)
+    pub followup: Option<(usize, u32, u32)>,
+    /// account of a wallet shielding transaction mined by the last `mine_pending`
+    pub shield_just_mined: Option<(usize, u32)>,
 }
 
 pub enum WitRes {
@@ -154,6 +159,8 @@ impl World {
             remined: 0,
             coin_seq: 0,
             mine_pending_soon: false,
+            followup: None,
+            shield_just_mined: None,
         }
     }
 
@@ -275,6 +282,10 @@ impl World {
         for i in &chosen {
             self.m.pend[*i].mined_uid = Some(uid);
             self.m.pend[*i].ever_mined = true;
+            if self.m.shield_inputs.contains_key(&self.m.pend[*i].txid) {
+                let src = self.m.shield_inputs[&self.m.pend[*i].txid].iter().filter_map(|k| self.m.coins.get(k).and_then(|c| c.put_height)).max();
+                self.shield_just_mined = Some((self.m.pend[*i].account, src.unwrap_or(height)));
+            }
         }
         self.pending_mined += chosen.len() as u64;
         self.log(json!({"op":"mine_pending","n":chosen.len(),"height":height}));
